@@ -109,7 +109,8 @@ class World:
         for i, at in enumerate(self.attr):
             a = spec['attrs'][i]
             ms.append({'ent': self.classes.index(at.entity), 'kind': a['kind'], 'req': bool(at.is_required), 'casc': bool(getattr(at, 'cascade_delete', False)),
-                       'rev': self.aid[at.reverse] if at.reverse else i, 'unique': bool(at.is_unique) and a['kind'] == 'scalar'})
+                       'rev': self.aid[at.reverse] if at.reverse else i, 'unique': bool(at.is_unique) and a['kind'] == 'scalar',
+                       'bit': bool(at.entity._bits_.get(at, 0))})
         self.model_schema = {'nent': nent, 'autopk': [bool(x) for x in spec['autopk']], 'attrs': ms, 'ckeys': [list(k) for k in spec['ckeys']]}
         self.ent_attrs = [[i for i, m in enumerate(ms) if m['ent'] == e] for e in range(nent)]
         for e, cls in enumerate(self.classes):     # declaration order of the real classes must be the model's
@@ -381,6 +382,7 @@ def run_real(spec, ops, want_db=False, stop_on_change=True):
         for i, op in enumerate(ops):
             err = w.apply(op)
             snap = w.snapshot()
+            if op['k'] == 'flush' and 'ids' not in op: op['ids'] = flush_ids(prev, snap)
             steps.append((err, snap))
             if err is not None and op['k'] != 'flush':
                 cats, detail = diff_fields(prev, snap)
@@ -400,6 +402,11 @@ def run_real(spec, ops, want_db=False, stop_on_change=True):
             rollback()
     w.db.disconnect()
     return {'steps': steps, 'changed': changed, 'db': db, 'w': w}
+
+
+def flush_ids(prev, snap):
+    """primary keys the database assigned during a flush (input of the model's flush)"""
+    return [[i, a['pk']] for i, (b, a) in enumerate(zip(prev['objs'], snap['objs'])) if b['pk'] is None and a['pk'] is not None]
 
 
 def vkey(op, err, cats):
@@ -464,6 +471,7 @@ def oracle_phase(ctx, rng, nhist, nops):
                 op, tag = gen_op(rng, w, pbad)
                 err = w.apply(op)
                 snap = w.snapshot()
+                if op['k'] == 'flush': op['ids'] = flush_ids(prev, snap)
                 ops.append(op)
                 ctx.count('op:%s:%s' % (op['k'], err or 'ok'))
                 if tag: ctx.count('bad-operand:%s:%s' % (tag, err or 'ok'))
@@ -510,9 +518,84 @@ def oracle_phase(ctx, rng, nhist, nops):
     return batch
 
 
+def norm_real(snap):
+    """real observation in the shape of the model's dump"""
+    objs = []
+    for o in snap['objs']:
+        objs.append({'ent': o['ent'], 'status': o['status'], 'pk': o['pk'], 'save_pos': o['save_pos'], 'wbits': o['wbits'],
+                     'vals': [[a, v] for a, v in sorted(o['vals'].items())],
+                     'colls': [[a, c['items'], c['added'], c['removed'], c['count']] if c is not None else [a, None] for a, c in sorted(o['colls'].items())]})
+    return {'objs': objs, 'to_save': snap['to_save'],
+            'pkidx': sorted([e, k, o] for e, l in snap['pkidx'].items() for k, o in l),
+            'idx': sorted([a, k, o] for a, l in snap['idx'].items() for k, o in l),
+            'cidx': sorted([c, k, o] for c, l in snap['cidx'].items() for k, o in l),
+            'modcoll': sorted([a, l] for a, l in snap['modcoll'].items()), 'modified': snap['modified']}
+
+
+def norm_model(obs):
+    return {'objs': obs['objs'], 'to_save': obs['to_save'], 'pkidx': sorted(obs['pkidx']), 'idx': sorted(obs['idx']), 'cidx': sorted(obs['cidx']),
+            'modcoll': sorted(obs['modcoll']), 'modified': obs['modified']}
+
+
+def obs_diff(m, r):
+    """first difference between model and real observation, or None.  The order inside objects_to_save may differ
+    (the real order follows Python set iteration): then only the set of queued objects and the holes are compared."""
+    if m == r: return None
+    order_only = False
+    if m['to_save'] != r['to_save']:
+        key = lambda l: sorted(-1 if x is None else x for x in l)
+        if key(m['to_save']) != key(r['to_save']): return ('to_save', m['to_save'], r['to_save'])
+        order_only = True
+    for f in ('pkidx', 'idx', 'cidx', 'modcoll', 'modified'):
+        if m[f] != r[f]: return (f, m[f], r[f])
+    if len(m['objs']) != len(r['objs']): return ('number of objects', len(m['objs']), len(r['objs']))
+    for i, (a, b) in enumerate(zip(m['objs'], r['objs'])):
+        if a == b: continue
+        for f in a:
+            if a[f] != b[f]:
+                if f in ('vals', 'colls', 'wbits') and a['status'] == 'deleted' and b['status'] == 'deleted': continue   # flush drops parts of deleted objects
+                if f == 'save_pos' and order_only and (a[f] is None) == (b[f] is None): continue
+                return ('obj %d %s' % (i, f), a[f], b[f])
+    return None
+
+
+LOOSE_ERR = {'RecursionError'}
+
+def tie_phase(ctx, batch):
+    if not ctx.driver.ok:
+        ctx.note('driver unavailable: the correspondence part is skipped, the oracle still runs'); return
+    outs = ctx.driver('C13', [{'op': 'run', 'schema': w.model_schema, 'ops': ops} for _, w, ops, _ in batch])
+    for (spec, w, ops, real), out in zip(batch, outs):
+        steps = out.get('steps')
+        if steps is None:
+            if 'unknown property' in str(out.get('driver_error')): raise SystemError('the shared driver executable was replaced while running: %r' % out)
+            ctx.divergence('driver error', {'schema': spec, 'ops': ops}, model=out); continue
+        for i, (err, snap) in enumerate(real):
+            m = steps[i]
+            hist = {'schema': spec, 'ops': ops[:i + 1]}
+            merr = m['err']
+            if merr in ('NoSuchObject', 'NoSuchAttr'):
+                ctx.divergence('model rejected a call the engine generated', hist, model=merr, impl=err); break
+            if (merr is None) != (err is None):
+                if merr in LOOSE_ERR or err in LOOSE_ERR: ctx.count('tie:cascade-cycle-outcome-differs'); break
+                ctx.divergence('outcome of the call differs', hist, model=merr, impl=err); break
+            if merr != err:
+                multi = ops[i]['k'] in ('delete', 'setm', 'create') or len(ops[i].get('items', [])) > 1 or len((ops[i].get('v') or {}).get('coll', [])) > 1
+                if multi or merr in LOOSE_ERR or err in LOOSE_ERR: ctx.count('tie:error-class-differs-in-multi-step-call:%s/%s' % (merr, err))
+                else: ctx.divergence('error class of the call differs', hist, model=merr, impl=err); break
+            d = obs_diff(norm_model(m['obs']), norm_real(snap))
+            if d is not None:
+                ctx.divergence('observation after the call differs: ' + d[0], hist, model=d[1], impl=d[2]); break
+            ctx.count('tie:calls-compared')
+            if err is not None:
+                ctx.count('tie:failing-call-undo-entries:%s' % min(m['trail'], 6))
+            if ops[i]['k'] == 'flush': ctx.count('tie:flush-compared')
+
+
 def run(ctx):
     rng = ctx.rng
-    oracle_phase(ctx, rng, ctx.scale(150, 3000), ctx.scale(16, 24))
+    batch = oracle_phase(ctx, rng, ctx.scale(150, 3000), ctx.scale(16, 24))
+    tie_phase(ctx, batch)
 
 
 def replay(ctx, data):
